@@ -74,6 +74,13 @@ def cases(draw, tier="quick", kind=None):
             for key in ("prefix_synonyms", "uri_prefix_synonyms"):
                 if r[key] and draw(st.integers(0, 4)) == 0:
                     r[key] = r[key] + [r[key][0]]
+        if len(case["data"]) >= 2 and draw(st.integers(0, 2)) == 0:
+            # a CURIE-prefix synonym of one record spelt exactly like a URI prefix of another record (separate name spaces)
+            recs = case["data"]
+            i, j = draw(st.integers(0, len(recs) - 1)), draw(st.integers(0, len(recs) - 1))
+            cand = draw(st.sampled_from([recs[j]["uri_prefix"], *recs[j]["uri_prefix_synonyms"]]))
+            if i != j and cand not in S.all_prefixes(recs):
+                recs[i]["prefix_synonyms"].append(cand)
         case["omit_empty"] = draw(st.booleans())
     elif kind == "jsonld":
         ps = [p for p in draw(_strs(S.CURIE_ALPHA + "@", 0, 7)) ]
@@ -100,6 +107,11 @@ def cases(draw, tier="quick", kind=None):
         ps = draw(_strs(S.CURIE_ALPHA, 0, 7))
         upool = draw(S.uri_pool(1, 4))
         case["data"] = [[p, draw(st.sampled_from(upool))] for p in ps]
+        if case["data"] and draw(st.integers(0, 2)) == 0:
+            # the two sides are separate name spaces: a CURIE prefix may be spelt like a URI prefix of the same map
+            extra = draw(st.sampled_from(upool))
+            if extra not in ps:
+                case["data"].append([extra, draw(st.sampled_from(upool))])
     case["delimiter"] = draw(S.delimiters())
     n = len(case["data"])
     case["perm"] = list(draw(st.permutations(range(n)))) if n > 1 else list(range(n))
@@ -165,7 +177,9 @@ def _via_files(obj, loader, what):
 
 
 def _behaviour(conv: Converter, expected, what):
-    d = conv.delimiter  # loaders forward keyword arguments such as delimiter= to the constructor
+    # loaders forward keyword arguments such as delimiter= to the constructor: the REQUESTED delimiter is what counts
+    d = what.split("delimiter=", 1)[1] if "delimiter=" in what else ":"
+    d = eval(d) if "delimiter=" in what else d  # noqa: S307 - repr of a str written by this module
     model = Model(expected, d)
     for r in expected:
         for p in prefixes_of(r):
@@ -222,6 +236,8 @@ def check(case, stats: Stats) -> None:
         convs = {"object": build(data), "shuffled": build(shuffled)}
         s, pth = _via_files({u: p for u, p in data}, Converter.from_reverse_prefix_map, kind)
         convs.update({"str-path": s, "Path": pth})
+        dl = case.get("delimiter", ":")
+        convs[f"delimiter={dl!r}"] = Converter.from_reverse_prefix_map({u: p for u, p in data}, delimiter=dl)
         free = True
         if any(len(us) > 1 for us in groups.values()):
             klass = "several-uri-prefixes-for-one-prefix"
@@ -264,6 +280,8 @@ def check(case, stats: Stats) -> None:
         convs = {"object": Converter.from_jsonld(ctx(data)), "shuffled": Converter.from_jsonld(ctx(shuffled)), "load_jsonld_context": curies.load_jsonld_context(ctx(data))}
         s, pth = _via_files(ctx(data), Converter.from_jsonld, kind)
         convs.update({"str-path": s, "Path": pth})
+        dl = case.get("delimiter", ":")
+        convs[f"delimiter={dl!r}"] = Converter.from_jsonld(ctx(data), delimiter=dl)
         free = False
         if len(expected) < len(data):
             klass = "ignored-jsonld-terms-present"
@@ -306,6 +324,8 @@ def check(case, stats: Stats) -> None:
             return
         expected = [_rec(p, u) for p, u in listed]
         convs = {"graph": Converter.from_rdflib(g), "manager": Converter.from_rdflib(g.namespace_manager)}
+        dl = case.get("delimiter", ":")
+        convs[f"delimiter={dl!r}"] = Converter.from_rdflib(g, delimiter=dl)
         free = False
         if any(p == "" for p, _ in listed):
             klass = "default-namespace"
